@@ -1,7 +1,16 @@
 import Model.TypeStr
+import Model.Infer
 import Drv.Util
 namespace Drv.C19
-open Model Model.TypeStr Drv
+open Model Model.TypeStr Model.Infer Drv
+
+/-- location table `hexname:hexcanon,…` (`-` = empty name) -/
+def parseLocs (s : String) : Option (List (Bytes × Bytes)) :=
+  if s == "." then some [] else
+  (s.splitOn ",").mapM fun e =>
+    match e.splitOn ":" with
+    | [a, b] => do let a ← fromHex a; let b ← fromHex b; pure (a, b)
+    | _ => none
 
 /-- `c19.conflicts <a> <b>` / `c19.base <a>` / `c19.elem <a>` / `c19.norm <a>` / `c19.downcast <a>` (hex strings) -/
 def cmd (args : List String) : String :=
@@ -14,6 +23,16 @@ def cmd (args : List String) : String :=
   | ["elem", a] => match fromHex a with | some a => toHex (elem a) | none => "bad-args"
   | ["norm", a] => match fromHex a with | some a => toHex (normalizeCommas asciiExt a) | none => "bad-args"
   | ["downcast", a] => match fromHex a with | some a => toHex (decimalDowncast asciiExt a) | none => "bad-args"
+  | ["infer", t, locs] =>
+    -- `c19 infer <type> <locations>`: `ok <reported type> <exact> <call depth>` or `err <call depth>`
+    match fromHex t, parseLocs locs with
+    | some t, some locs =>
+      let x := asciiIExt locs
+      let d := callDepth x (maxInferDepth + 1) t
+      match infer x t with
+      | some c => s!"ok {toHex (reported c)} {c.exact} {d}"
+      | none => s!"err {d}"
+    | _, _ => "bad-args"
   | _ => "bad-args"
 
 end Drv.C19
